@@ -147,6 +147,10 @@ def gen_case(rng, tier, g):
         wh = None
         if fmt in ('csv', 'tsv', 'pickle') and rng.random() < 0.3:
             wh = rng.random() < 0.5
+        if op == 'TO' and i > 0 and rng.random() < 0.5:
+            # the target is rewritten with another set of fields
+            nf = rng.randint(1, 4)
+            hdr = rng.sample(FIELDS, nf)
         t = _table(rng, fmt, maxrows, nf=nf, hdr=hdr)
         hist.append([op, t, wh])
     return {'prop': PROP, 'fmt': fmt, 'target': target, 'args': args,
@@ -283,6 +287,14 @@ def _identity_applies(records, args):
                 # against the stdlib reference only
                 return False
     return True
+
+
+def _raw(tgt, what):
+    try:
+        return tgt.raw()
+    except Exception as ex:
+        raise _Bad('target-corrupt', '%s: the target cannot be read / '
+                   'decompressed: %s: %s' % (what, type(ex).__name__, ex))
 
 
 def _jsonify(v):
@@ -438,7 +450,7 @@ def run_case(case):
                         got = [r for r in iter(fresh_view)]
                     elif fmt == 'json':
                         if 'prefix' in args:
-                            raw = tgt.raw().decode('utf-8')
+                            raw = _raw(tgt, what).decode('utf-8')
                             body = raw[len(args['prefix']):
                                        len(raw) - len(args['suffix'])]
                             ds = json.loads(body)
@@ -465,7 +477,7 @@ def run_case(case):
                                        'missing= gives %r, expected %r'
                                        % (what, got2, want2))
                     elif fmt == 'jsonarrays':
-                        raw = tgt.raw().decode('utf-8')
+                        raw = _raw(tgt, what).decode('utf-8')
                         if 'prefix' in args:
                             raw = raw[len(args['prefix']):
                                       len(raw) - len(args['suffix'])]
@@ -533,7 +545,7 @@ def run_case(case):
                             _write(e, fmt, 'TO', cat, twin.w, args, first_wh)
                         except Exception as ex:
                             raise _Inapplicable(str(ex))
-                        a_bytes, b_bytes = tgt.raw(), twin.raw()
+                        a_bytes, b_bytes = _raw(tgt, what), _raw(twin, what)
                         probes['append-bytes-compared'] = 1
                         if a_bytes != b_bytes:
                             raise _Bad('append-differs-from-to-cat',
